@@ -40,6 +40,8 @@ BinFails(e) ==
   \* the second operand is a floating-point NaN / infinity / 2^63 and beyond and has to become an integer, a time span or a date-time:
   \* the host defines no such conversion - an error is as good as a value
   ELSE IF e.outcome = "error" /\ "bfits" \in DOMAIN e /\ ~e.bfits /\ b.t \in {"Float", "Double"} /\ ConvTarget(n, a.t) \in {"Integer", "Long", "TimeSpan", "DateTime"} THEN ""
+  \* ... or a text that spells no number and has to become one
+  ELSE IF e.outcome = "error" /\ "bfits" \in DOMAIN e /\ ~e.bfits /\ b.t = "String" /\ ConvTarget(n, a.t) \in {"Integer", "Long", "Float", "Double", "TimeSpan", "DateTime"} THEN ""
   ELSE IF ShiftTooFar(n, a, b) THEN ""
   ELSE F(e.outcome = "value", "a defined operation yielded an error")
     \o (IF e.outcome # "value" THEN ""
